@@ -4,7 +4,7 @@ CONSTANTS
   SizeLimit = 3
   PeerLimit = 2
   RingCap = 2
-  CacheCap = 1
+  CacheCap = 0
   Universe <- UC
   H0 = 1
   Peers = {1}
@@ -12,6 +12,5 @@ CONSTANTS
   UseRing = TRUE
   MaxWritten = 99
 VIEW View
-INVARIANT Inv
-PROPERTY StepProp
+PROPERTY ReachDropped
 CHECK_DEADLOCK FALSE
